@@ -223,6 +223,31 @@ fn case(sink: &mut Sink, model: &mut Model, r: &mut Rng, pool: &[KeyInfo], meta:
         let ok = guarded(move || g.verify(2, [&k1, &k2]).is_ok());
         sink.oracle(ok == Ok(true) || key.public().key_id() == other.public().key_id(), "metadata signed by the library does not verify", &format!("signed {}", proto(&j, &mut None)));
     }
+    // no two distinct JSON values have the same canonical encoding - also where the typed readers do not
+    // go: the document with one of its integers respelled as a number of another kind (`3` as `3.0`)
+    // is another JSON value; it has no canonical encoding at all, or another one
+    {
+        use in_toto::interchange::{DataInterchange, Json};
+        let base = Json::canonicalize(&j).ok();
+        let mut paths = vec![];
+        collect(&j, &mut vec![], &mut paths);
+        for p in paths {
+            if let Value::Number(n) = get(&j, &p) {
+                if let Some(f) = n.as_i64().map(|i| i as f64).or_else(|| n.as_u64().map(|u| u as f64)) {
+                    if let Some(fl) = serde_json::Number::from_f64(f) {
+                        let mut j2 = j.clone();
+                        *get_mut(&mut j2, &p) = Value::Number(fl);
+                        if j2 != j {
+                            let c2 = Json::canonicalize(&j2).ok();
+                            sink.stat(&format!("{}/number-respelled/{}", class, if c2.is_some() { "encoded" } else { "rejected" }));
+                            sink.oracle(c2.is_none() || c2 != base, "two distinct JSON values (an integer, the same number as a float) have the same canonical encoding",
+                                &format!("signed {} // number at {:?} respelled as a float", proto(&j, &mut None), p));
+                        }
+                    }
+                }
+            }
+        }
+    }
     let edits = leaf_edits(&j, r);
     // a random sample of the catalogue (every kind of edit at every kind of leaf over the run)
     let mut edits = edits;
